@@ -236,7 +236,8 @@ def rule_precedence(run, F, cfg):
     for kind, db, val, conds, _ in defs:
         if val == "false":
             continue
-        if "is_important" in val or "unwrap_or_else(std::option::Option::map(" in val:
+        if "is_important" in val or "unwrap_or_else(std::option::Option::map(" in val or \
+                re.search(r"Option::(is_some_and|map_or)\(", val):
             continue
         if val == "true" and any(re.search(r"NetworkFilterMaskHelper::is_important\(.*(importants|filters)", e) and v == 1
                                  for e, v in conds.items()):
@@ -601,7 +602,7 @@ def rule_verdict_table(run, F, cfg):
         return
     ab = aggs[0][0]
     fields = dict(zip(aggs[0][2]["rv"]["fields"], aggs[0][2]["rv"]["ops"]))
-    starts = [b for b, t in f.calls(r"^std::option::Option::is_(some|none)$")
+    starts = [b for b, t in f.calls(r"^std::option::Option::is_(some|none|some_and)$")
               if f.dominates(b, ab) and red in f.dominators().get(b, set())]
     # `matches!(filter, Some(f) if ..)` / `match filter {..}` open the result computation with a switch on `filter`
     starts += [b for b, blk in enumerate(f.blocks)
@@ -644,6 +645,14 @@ def rule_verdict_table(run, F, cfg):
                 dflt = {"false": 0, "true": 1}.get(defc.expr_local(0)) if okc else None
                 if not okc:
                     unknown.add("important closures: " + e2[:80])
+            elif re.match(r"^std::option::Option::is_some_and\((std::option::Option::as_ref\()?φ\{probe\(importants\).*closure\[([^\]]+)\]\(\)\)$", e2):
+                # `filter.as_ref().is_some_and(|f| f.is_important())`: one decision for "a filter was chosen and it is important"
+                mc = cl.get(re.search(r"closure\[([^\]]+)\]\(\)\)$", e2).group(1))
+                if mc is not None and mc.calls(r"NetworkFilterMaskHelper::is_important$") and \
+                        re.match(r"^filters::network::NetworkFilterMaskHelper::is_important\(arg:\w+\)$", mc.expr_local(0)):
+                    a["IA"] = v
+                else:
+                    unknown.add("important closure: " + e2[:80])
             elif e2 == "arg:matched_rule":
                 a["M"] = v
             elif re.match(r"^discr\((std::option::Option::as_ref\()?φ\{probe\(importants\) \| std::option::Option::or_else\(", e2) \
@@ -660,7 +669,7 @@ def rule_verdict_table(run, F, cfg):
         if infeasible:
             continue        # two tests of the same `filter` value disagree: not an execution
         tail.append((a, vals))
-    ok_parse = not unknown and len(tail) >= 4
+    ok_parse = not unknown and len(tail) >= 3
     run.ob("C04.2.precedence", "table:tail-modelled", ok_parse,
            f"every decision of the result computation is one of: filter is Some, the important test "
            f"(map(is_important).unwrap_or_else(const)), exception is None, matched_rule ({len(tail)} paths); "
@@ -676,10 +685,11 @@ def rule_verdict_table(run, F, cfg):
             got = set()
             for a, vals in tail:
                 if a.get("FS", FS) != FS or a.get("ES", ES) != ES or a.get("M", M) != M or a.get("U", U) != U \
-                        or a.get("P", P) != P:
+                        or a.get("P", P) != P or a.get("IA", FS & P) != (FS & P):
                     continue
                 mv = {"true": 1, "false": 0, "arg:matched_rule": M}.get(vals["matched"])
-                iv = {"false": 0, "true": 1}.get(vals["important"], U if "unwrap_or_else(" in vals["important"] else None)
+                iv = {"false": 0, "true": 1}.get(vals["important"], U if "unwrap_or_else(" in vals["important"] else
+                                                 ((FS & P) if "Option::is_some_and(" in vals["important"] and "IA" in a else None))
                 rw = 1 if vals["rewritten_url"].startswith("blocker::Blocker::apply_removeparam(") else \
                     (0 if vals["rewritten_url"] == "std::option::Option::None{}" else None)
                 got.add((mv, iv, rw))
